@@ -429,11 +429,20 @@ func Reframe(b []byte, cuts []int, enc bool, salt int) []byte {
 		out = append(out, fr.Encode()...)
 		from = to
 	}
+	// no frame may exceed what a receiver accepts (1 MiB on the wire incl. tag and IV)
+	const maxPlain = 1048576 - 32
+	upTo := func(to int) {
+		for to-from > maxPlain {
+			emit(from+maxPlain, 0)
+		}
+	}
 	for _, c := range cuts {
 		if c > from && c < len(b) {
+			upTo(c)
 			emit(c, 0)
 		}
 	}
+	upTo(len(b))
 	emit(len(b), 1)
 	return out
 }
